@@ -4,6 +4,18 @@ import json, os
 ids = [json.loads(l)['id'] for l in open('/verif/properties.jsonl')]
 TRUST = "CPython, hashlib, zlib, pyca/cryptography primitives, the RFC example vectors anchoring the reference implementation (mc/ref/selftest.py)"
 C = {
+ "C01": dict(level="fault_enumeration", ref="3 (C01)", technique="deviation-bounded exhaustive fault enumeration (choice-tree explorer E1) over reference-signed tokens, every variant run through every real entry point; an independent verifier arbitrates",
+   text="Valid tokens for all 15 algorithm/key kinds x 6 serialization paths x alg placement are produced by the independent reference signer; then every single fault of the statement's classes is applied to the decoded octets - every bit of protected header, payload and signature, every truncation length, extensions, re-encodings of the signature, every splice between two tokens (one key, two keys), structural edits of the JSON forms, key substitution, a differing out-of-band payload - plus all pairs of bit faults for HS256/ES256/EdDSA compact (thorough: all MAC/EC/OKP kinds). About 3x10^5 executions quick. A variant the reference verifier rejects must raise in every entry point; one it still accepts may only return what was signed.",
+   note="Trusts " + TRUST + ". ECDSA (r, n-s) malleability is outside the fault alphabet. One known finding (unprotected b64 honoured by rfc7797.deserialize_json) is listed in known_findings.json."),
+ "C02": dict(level="fault_enumeration", ref="3 (C02)", technique="deviation-bounded exhaustive fault enumeration (E1) over reference-encrypted tokens run through the real decryptor; an independent decryptor arbitrates; explicit enumeration of tampered recipient subsets",
+   text="Valid JWEs from the independent reference encryptor for a covering set of (alg, enc) pairs (thorough: the full product) x 3 serializations x AAD; every bit of the decoded protected header, encrypted key, IV, ciphertext, tag and AAD (quick: every bit in the compact form, one bit per octet in the JSON forms), every re-spelling of the protected header, every tag/IV length, boundary shifts between IV|ciphertext|tag, non-empty encrypted key in direct modes, wrong recipient/sender key, 10 epk edits, all 30 segment splices between two tokens; and for 2-3 recipient general JSON every tampered subset x verify_all_recipients and a valid recipient entry carrying a different CEK. Any returned plaintext for a variant the reference rejects is a violation.",
+   note="Trusts " + TRUST + ". Pairs of faults only in the thorough tier and only for the covering set."),
+ "C04": dict(level="exploration", ref="3 (C04)", technique="bounded exhaustive enumeration (E1) of the JWE configuration space with deviation-bounded optional features, judged by joserfc's own decryptor and by an independent decryptor",
+   text="(17 RFC algs + 4 ECDH-1PU) x suitable key kinds (ECDH on 6 curves) x 8 enc x 3 serializations fully enumerated; zip, AAD, apu/apv, header placement and plaintext class (empty, 1, 15, 16, 17, 32, 256, 1000 octets) as deviations up to bound 1 (thorough 2); general JSON with every ordered pair and every 3-recipient (thorough 4-recipient) mix over 8 algorithm kinds; direct modes with several recipients and ECDH-1PU key wrapping with a non-CBC enc must be refused at encryption time.",
+   note="Trusts " + TRUST + "."),
+ "C08": dict(level="exploration", ref="5 (C07/C08)", technique="bounded exhaustive enumeration (E1) in both directions between joserfc and an independent implementation of RFC 7516/7518 and the drafts",
+   text="Reference-produced JWEs for every alg x key kind x enc x serialization, with header spelling, zip, AAD (lengths 1, 3, 4), apu/apv, position of generated parameters and plaintext class as deviations, are decrypted by joserfc; joserfc-produced JWEs over the same dimensions (incl. caller-supplied p2s/p2c) are decrypted by the reference; two-recipient general JSON from the reference; the RFC 7520 section 5 and ECDH-1PU draft vectors. PBES2 salt inputs are fixed so that the same (password, salt, count) recurs under different algorithms within a process.",
+   note="Trusts " + TRUST + ". The reference reproduces RFC 7516 A.3 octet for octet and decrypts A.1, A.2, RFC 7520 5.x and the ECDH-1PU vectors."),
  "C03": dict(level="exploration", ref="3 (C03)", technique="bounded exhaustive enumeration (choice-tree explorer E1) of the JWS configuration space on the real code, judged by an independent reference verifier",
    text="All 15 algorithm/key kinds x key representations x key-as-key/set/callable x 5 serialization paths x header placements x payload classes are signed by joserfc; every token is then verified by joserfc (private and public-only key) and by an independent RFC 7515/7797 verifier that only gets the exported public JWK, and detached/restored. The configuration space is enumerated completely (about 10^5 executions quick), which is what finds a defect confined to one (algorithm, path, placement, payload class) cell; payload octets beyond the classes and keys beyond the constructed families are not covered.",
    note="Trusts " + TRUST + ". ECDSA nonces come from OpenSSL and are not controlled: leading-zero R/S coverage is reported, not guaranteed."),
